@@ -37,7 +37,7 @@
        an atomic read of the core's strong count.  [JStart] does both in one step (label LPollFn).  Sound: only the
        PipeStream (consumer) owns the core besides the running job, jobs are serial, and acquiring the poll_fn lock
        commutes with the consumer releasing the core.
-   D2. `PipeContext::poll` (l.121-160): [WCtx] = `target.upgrade()` + (alive) `future_desync` enqueue in ONE step
+   D2. (superseded, see REFERENCES below) `PipeContext::poll` (l.121-160): [WCtx] = `target.upgrade()` + (alive) `future_desync` enqueue in ONE step
        (LNone: the enqueue is a critical section of the queue layer, not of pipe.rs).  The temporary strong
        reference `target` between upgrade and enqueue is not modelled.  (not alive) -> [WTakeFn] = l.155 (LPollFn);
        the later `mem::drop(old_poll_fn)` on the chute has no effect on the modelled state.
@@ -58,6 +58,21 @@
    D8. When the job returns `true` at l.321/l.350 the step ends the job (`running := None`); when it returns false
        the job goes to [JClear] (l.148).  If `poll_fn` is already None at [JStart] (l.138 `as_mut()` is None) the
        job ends immediately.
+
+   REFERENCES TO THE DESYNC AND ITS RELEASE (extends D2)
+   The strong count of the Arc<Desync> is: `strong_held` (the pipe's clone inside on_drop) + `ext_owner` + one for every
+   thread inside PipeContext::poll between `target.upgrade()` and the drop of `target` ([WEnq] in `cwk` / `ewk`).
+   [WCtx] = the upgrade (reads the count); [WEnq] = future_desync enqueue + drop of `target` in one step.  Whoever drops the
+   LAST Arc runs Desync::drop, a `sync` on the object that frees the data: that thread goes to [WSync] / the chute to
+   [ChSync] / the external owner sets `xsync`, and stays there until the ObjExec has no queued or running poll job
+   ([drained]); then `freed` is incremented.  A thread in [WSync] inside Drop::drop still holds the core lock.
+   [f_drop_wakes_before_dispose] = the order of l.479 and l.482-486 in Drop for PipeStream: true (the code) = [ACDrop] takes
+   and wakes notify_stream_closed, and the END of the section hands on_drop to the chute; false = on_drop is queued when
+   the section starts, so [ADispose] can drop the pipe's Arc while the dropping thread is inside PipeContext::poll.
+
+   SLOW ITEMS: an item in `slow` has a processing future that returns Pending once (it wakes itself): [JProc x] -> [JSusp x]
+   -> [JPush (f x)].  While suspended the poll job keeps the object (no other poll job runs), its clone of the core and its
+   waker; the resumption is a silent step of [AProd] (in the implementation possibly on another thread).
 *)
 From stdpp Require Import list numbers option.
 From RecordUpdate Require Import RecordUpdate.
@@ -70,18 +85,32 @@ Record pfacts := {
   f_pending_recheck : bool;   (* the Pending arm (l.348-351) tests `closed` under the lock that stores notify_stream_closed *)
   f_default_depth : nat;      (* PIPE_BACKPRESSURE_COUNT (l.67) *)
   f_poll_next_replaces_waker : bool;  (* poll_next stores the caller's waker unconditionally (l.504), replacing an older one *)
+  f_drop_wakes_before_dispose : bool; (* Drop for PipeStream calls notify_stream_closed's waker (l.479) BEFORE it hands on_drop to
+                                         REFERENCE_CHUTE (l.482-486); both under the core lock *)
 }.
-Definition facts_unrepaired : pfacts := {| f_pending_recheck := false; f_default_depth := 5; f_poll_next_replaces_waker := true |}.
-Definition facts_repaired : pfacts := {| f_pending_recheck := true; f_default_depth := 5; f_poll_next_replaces_waker := true |}.
+Definition facts_unrepaired : pfacts := {| f_pending_recheck := false; f_default_depth := 5; f_poll_next_replaces_waker := true;
+     f_drop_wakes_before_dispose := true |}.
+Definition facts_repaired : pfacts := {| f_pending_recheck := true; f_default_depth := 5; f_poll_next_replaces_waker := true;
+     f_drop_wakes_before_dispose := true |}.
 (* a mutant: poll_next stores the waker only `if core.notify.is_none()` *)
-Definition facts_stale_waker : pfacts := {| f_pending_recheck := true; f_default_depth := 5; f_poll_next_replaces_waker := false |}.
+Definition facts_stale_waker : pfacts := {| f_pending_recheck := true; f_default_depth := 5; f_poll_next_replaces_waker := false;
+     f_drop_wakes_before_dispose := true |}.
+(* a mutant: Drop for PipeStream queues on_drop on the disposal queue first and wakes notify_stream_closed afterwards *)
+Definition facts_swapped_drop : pfacts :=
+  {| f_pending_recheck := true; f_default_depth := 5; f_poll_next_replaces_waker := true; f_drop_wakes_before_dispose := false |}.
 
 (* a thread that is calling a PipeWaker *)
 Inductive wk :=
 | WIdle
 | WCall (j : nat)     (* about to run PipeWaker::wake_by_ref of job j's waker: l.170 (LPipeWaker) *)
-| WCtx                (* context was Some: PipeContext::poll, l.123 upgrade (+ l.128 enqueue when alive) *)
-| WTakeFn.            (* upgrade failed: l.155 poll_fn.take() (LPollFn) *)
+| WCtx                (* context was Some: PipeContext::poll, l.123 target.upgrade() *)
+| WEnq                (* upgrade succeeded, the thread holds the temporary Arc `target`: l.128 future_desync enqueues a poll job,
+                         then `target` is dropped (end of the `if let`, l.153); if it was the LAST Arc, Desync::drop runs here *)
+| WTakeFn             (* upgrade failed: l.155 poll_fn.take() (LPollFn) *)
+| WSync.              (* inside Desync::drop (desync.rs l.255-281): the final `sync` that frees the object; blocks until every
+                         queued poll job has run *)
+(* the disposal queue REFERENCE_CHUTE with respect to the on_drop job *)
+Inductive chst := ChIdle | ChQueued | ChSync (* on_drop dropped the LAST Arc<Desync>: Desync::drop runs on the chute *).
 Inductive kont := KLoop | KRet.
 Inductive jpc :=
 | JStart                      (* l.137-142 [LPollFn] lock poll_fn, call it (l.304 upgrade) *)
@@ -91,7 +120,10 @@ Inductive jpc :=
 | JInput                      (* l.341-344 [LInput] poll the input with this job's waker *)
 | JPendStore                  (* l.349 [LStream] notify_stream_closed := Some waker; return true *)
 | JEndClose                   (* l.356-361 [LStream] closed := true; notify.take() *)
-| JProc (x : nat)             (* l.370-371 process(core, x).await *)
+| JProc (x : nat)             (* l.370-371 process(core, x).await: the closure is called [LProcess], the future polled once *)
+| JSusp (x : nat)             (* the processing future of a SLOW item returned Pending (it woke itself): the poll job is
+                                 suspended in the middle of the item, holding the object and its clone of the core; the
+                                 queue re-polls it *)
 | JPush (v : nat)             (* l.374-379 [LStream] push_back; notify.take() *)
 | JWake (n : option nat) (k : kont) (* l.331 / l.362 / l.380: wake the taken consumer waker (if any) outside the lock *)
 | JClear.                     (* l.148 [LPollFn] poll_fn := None *)
@@ -100,12 +132,13 @@ Inductive cpc :=
 | CDrop1    (* inside Drop::drop, core lock held *)
 | CDrop2    (* lock released, `core` Arc not yet dropped *)
 | CGone.
-Inductive actor := AProd | ACPoll | ACProbe | ACons | ACDrop | ACSetDepth (d : nat) | AItem | AEnd | AEnv | ADispose | AExtDrop.
+Inductive actor := AProd | ACPoll | ACProbe | ACons | ACDrop | ACSetDepth (d : nat) | AItem | AEnd | AEnv | ADispose | AExtDrop | AExtSync.
 #[export] Instance actor_eq_dec : EqDecision actor. Proof. solve_decision. Defined.
 
 Record state := {
   (* input stream (environment) *)
   inp_rest : list nat; inp_avail : nat; inp_ended : bool; inp_waker : option nat; taken : list nat;
+  slow : list nat;   (* the items whose processing suspends once (constant) *)
   (* PipeStreamCore *)
   depth : nat; pending : list nat; closed : bool; notify : option nat; nsc : option nat; bp : option nat;
   (* PipeContext / PipeWakers *)
@@ -117,16 +150,24 @@ Record state := {
   (* environment thread *)
   ewk : wk;
   (* references *)
-  strong_held : bool; ext_owner : bool; chute : bool;
+  strong_held : bool; ext_owner : bool; chute : chst;
+  xsync : bool;      (* the external owner dropped the last Arc<Desync>: it is inside Desync::drop *)
+  freed : nat;       (* how many times the object's data has been freed *)
 }.
 #[export] Instance eta_state : Settable _ := settable! Build_state
-  <inp_rest; inp_avail; inp_ended; inp_waker; taken; depth; pending; closed; notify; nsc; bp; poll_fn; njobs; wtaken; jobq; running;
-   cst; cw_next; clatest; cwoken; cwk; delivered; got_end; ewk; strong_held; ext_owner; chute>.
+  <inp_rest; inp_avail; inp_ended; inp_waker; taken; slow; depth; pending; closed; notify; nsc; bp; poll_fn; njobs; wtaken; jobq; running;
+   cst; cw_next; clatest; cwoken; cwk; delivered; got_end; ewk; strong_held; ext_owner; chute; xsync; freed>.
 
 Definition core_locked (s : state) : bool := match s.(cst) with CDrop1 => true | _ => false end.
 Definition core_gone (s : state) : bool := match s.(cst) with CGone => true | _ => false end.
 Definition dropped (s : state) : bool := match s.(cst) with CDrop1 | CDrop2 | CGone => true | _ => false end.
-Definition desync_alive (s : state) : bool := s.(strong_held) || s.(ext_owner).
+Definition is_enq (w : wk) : bool := match w with WEnq => true | _ => false end.
+(* the strong count of the Arc<Desync> is positive: the pipe's reference (captured by on_drop), an external owner, or the
+   temporary `target` of a thread inside PipeContext::poll *)
+Definition desync_alive (s : state) : bool := s.(strong_held) || s.(ext_owner) || is_enq s.(cwk) || is_enq s.(ewk).
+(* nothing left for the final sync of Desync::drop to wait for *)
+Definition drained (s : state) : bool :=
+  match s.(jobq), s.(running) with [], None => true | _, _ => false end.
 Definition live_in (wt : list nat) (j : nat) : bool := negb (bool_decide (j ∈ wt)).
 Definition is_live (s : state) (j : nat) : bool := live_in s.(wtaken) j.
 Definition wk_of (o : option nat) : wk := match o with Some j => WCall j | None => WIdle end.
@@ -137,12 +178,15 @@ Definition enqueue (s : state) : state :=
   s <| jobq := s.(jobq) ++ [s.(njobs)] |> <| njobs := S s.(njobs) |>.
 
 (* one step of a thread calling a PipeWaker *)
-Definition wake_step (s : state) (w : wk) : option (wk * state) :=
+(* [others]: some strong reference to the Desync exists besides this thread's temporary one *)
+Definition wake_step (s : state) (others : bool) (w : wk) : option (wk * state) :=
   match w with
   | WIdle => None
   | WCall j => if is_live s j then Some (WCtx, s <| wtaken := j :: s.(wtaken) |>) else Some (WIdle, s)
-  | WCtx => if desync_alive s then Some (WIdle, enqueue s) else Some (WTakeFn, s)
+  | WCtx => if desync_alive s then Some (WEnq, s) else Some (WTakeFn, s)
+  | WEnq => Some (if others then WIdle else WSync, enqueue s)
   | WTakeFn => Some (WIdle, s <| poll_fn := false |>)
+  | WSync => if drained s then Some (WIdle, s <| freed := S s.(freed) |>) else None
   end.
 
 Definition job_step (F : pfacts) (f : nat -> nat) (s : state) (j : nat) (pc : jpc) : option state :=
@@ -163,7 +207,8 @@ Definition job_step (F : pfacts) (f : nat -> nat) (s : state) (j : nat) (pc : jp
                   if F.(f_pending_recheck) && s.(closed) then goto s JClear
                   else fin (s <| nsc := Some j |>)
   | JEndClose => if core_locked s then None else goto (s <| closed := true |> <| notify := None |>) (JWake s.(notify) KRet)
-  | JProc x => goto s (JPush (f x))
+  | JProc x => if bool_decide (x ∈ s.(slow)) then goto s (JSusp x) else goto s (JPush (f x))
+  | JSusp x => goto s (JPush (f x))
   | JPush v => if core_locked s then None else
                goto (s <| pending := s.(pending) ++ [v] |> <| notify := None |>) (JWake s.(notify) KLoop)
   | JWake n k => let s1 := match n with
@@ -213,14 +258,15 @@ Definition step (F : pfacts) (f : nat -> nat) (s : state) (a : actor) : option s
       if wk_idle s.(cwk) then
         match s.(cst) with
         | CRun b => Some (s <| cst := if b then CPend else CIdle |>)
-        | CDrop1 => Some (s <| chute := true |> <| cst := CDrop2 |>)
+        | CDrop1 => Some (s <| chute := if F.(f_drop_wakes_before_dispose) then ChQueued else s.(chute) |> <| cst := CDrop2 |>)
         | CDrop2 => Some (s <| cst := CGone |>)
         | _ => None
         end
-      else '(w, s1) ← wake_step s s.(cwk); Some (s1 <| cwk := w |>)
+      else '(w, s1) ← wake_step s (s.(strong_held) || s.(ext_owner) || is_enq s.(ewk)) s.(cwk); Some (s1 <| cwk := w |>)
   | ACDrop =>
       if outside_poll s then
-        Some (s <| pending := [] |> <| closed := true |> <| nsc := None |> <| cwk := wk_of s.(nsc) |> <| cst := CDrop1 |>)
+        Some (s <| pending := [] |> <| closed := true |> <| nsc := None |> <| cwk := wk_of s.(nsc) |>
+                <| chute := if F.(f_drop_wakes_before_dispose) then s.(chute) else ChQueued |> <| cst := CDrop1 |>)
       else None
   | ACSetDepth d => if outside_poll s then Some (s <| depth := d |>) else None
   | AItem =>
@@ -231,21 +277,33 @@ Definition step (F : pfacts) (f : nat -> nat) (s : state) (a : actor) : option s
       if wk_idle s.(ewk) && negb s.(inp_ended) && (s.(inp_avail) =? length s.(inp_rest)) then
         Some (s <| inp_ended := true |> <| inp_waker := None |> <| ewk := wk_of s.(inp_waker) |>)
       else None
-  | AEnv => '(w, s1) ← wake_step s s.(ewk); Some (s1 <| ewk := w |>)
-  | ADispose => if s.(chute) then Some (s <| chute := false |> <| strong_held := false |>) else None
-  | AExtDrop => if s.(ext_owner) then Some (s <| ext_owner := false |>) else None
+  | AEnv => '(w, s1) ← wake_step s (s.(strong_held) || s.(ext_owner) || is_enq s.(cwk)) s.(ewk); Some (s1 <| ewk := w |>)
+  | ADispose =>
+      match s.(chute) with
+      | ChQueued => Some (s <| strong_held := false |>
+                            <| chute := if s.(ext_owner) || is_enq s.(cwk) || is_enq s.(ewk) then ChIdle else ChSync |>)
+      | ChSync => if drained s then Some (s <| chute := ChIdle |> <| freed := S s.(freed) |>) else None
+      | ChIdle => None
+      end
+  | AExtDrop =>
+      if s.(ext_owner) then
+        Some (s <| ext_owner := false |> <| xsync := negb (s.(strong_held) || is_enq s.(cwk) || is_enq s.(ewk)) |>)
+      else None
+  | AExtSync => if s.(xsync) && drained s then Some (s <| xsync := false |> <| freed := S s.(freed) |>) else None
   end.
 
 Definition run (F : pfacts) (f : nat -> nat) (s : state) (tr : list actor) : option state :=
   foldl (fun os a => o ← os; step F f o a) (Some s) tr.
 
 (* `ext` = some owner other than the pipe keeps an Arc<Desync>.  Job 0 is the initial PipeContext::poll (l.392). *)
-Definition init (F : pfacts) (inputs : list nat) (ext : bool) : state :=
-  {| inp_rest := inputs; inp_avail := 0; inp_ended := false; inp_waker := None; taken := [];
+Definition init_slow (F : pfacts) (inputs slow_items : list nat) (ext : bool) : state :=
+  {| inp_rest := inputs; inp_avail := 0; inp_ended := false; inp_waker := None; taken := []; slow := slow_items;
      depth := F.(f_default_depth); pending := []; closed := false; notify := None; nsc := None; bp := None;
      poll_fn := true; njobs := 1; wtaken := []; jobq := [0]; running := None;
      cst := CIdle; cw_next := 0; clatest := 0; cwoken := false; cwk := WIdle; delivered := []; got_end := false;
-     ewk := WIdle; strong_held := true; ext_owner := ext; chute := false |}.
+     ewk := WIdle; strong_held := true; ext_owner := ext; chute := ChIdle; xsync := false; freed := 0 |}.
+(* no slow item *)
+Definition init (F : pfacts) (inputs : list nat) (ext : bool) : state := init_slow F inputs [] ext.
 
 (* ---------- labels: the mutex class of the critical section a step corresponds to ---------- *)
 Definition wk_label (w : wk) : label :=
@@ -256,7 +314,7 @@ Definition jpc_label (pc : jpc) : label :=
   | JFull | JClosedTake | JLoop | JPendStore | JEndClose | JPush _ => LStream
   | JInput => LInput
   | JProc _ => LProcess
-  | JWake _ _ => LNone
+  | JSusp _ | JWake _ _ => LNone
   end.
 Definition label_of (s : state) (a : actor) : label :=
   match a with
@@ -264,14 +322,14 @@ Definition label_of (s : state) (a : actor) : label :=
   | ACPoll | ACProbe | ACDrop | ACSetDepth _ => LStream
   | ACons => wk_label s.(cwk)      (* at CDrop1 with an idle cwk this is the END of the LStream section opened by ACDrop *)
   | AEnv => wk_label s.(ewk)
-  | AItem | AEnd | ADispose | AExtDrop => LNone
+  | AItem | AEnd | ADispose | AExtDrop | AExtSync => LNone
   end.
 Definition step_label (F : pfacts) (f : nat -> nat) (s : state) (a : actor) : option label :=
   match step F f s a with Some _ => Some (label_of s a) | None => None end.
 
 (* ---------- observations used by the theorems ---------- *)
 Definition job_inflight (s : state) (f : nat -> nat) : list nat :=
-  match s.(running) with Some (_, JProc x) => [f x] | Some (_, JPush v) => [v] | _ => [] end.
+  match s.(running) with Some (_, (JProc x | JSusp x)) => [f x] | Some (_, JPush v) => [v] | _ => [] end.
 (* the consumer has returned (or is about to return) Pending and has not been woken since *)
 Definition cons_waiting (s : state) : bool :=
   match s.(cst) with CPend | CRun true => negb s.(cwoken) | _ => false end.
@@ -280,7 +338,7 @@ Definition cons_wake_inflight (s : state) : bool :=
   match s.(running) with Some (_, JWake (Some w) _) => w =? s.(clatest) | _ => false end.
 (* a wake of a PipeWaker / a PipeContext::poll is in flight in thread slot w and will have an effect *)
 Definition wk_tokw (wt : list nat) (w : wk) : bool :=
-  match w with WIdle => false | WCall j => live_in wt j | WCtx | WTakeFn => true end.
+  match w with WIdle | WSync => false | WCall j => live_in wt j | WCtx | WEnq | WTakeFn => true end.
 Definition live_optw (wt : list nat) (o : option nat) : bool := match o with Some j => live_in wt j | None => false end.
 Definition wk_tok (s : state) (w : wk) : bool := wk_tokw s.(wtaken) w.
 Definition live_opt (s : state) (o : option nat) : bool := live_optw s.(wtaken) o.
@@ -299,7 +357,7 @@ Definition terminal (F : pfacts) (f : nat -> nat) (s : state) : Prop :=
 Definition terminal_silent (F : pfacts) (f : nat -> nat) (s : state) : Prop :=
   forall a, optional a = false -> env_event a = false -> step F f s a = None.
 (* executable versions, for examples *)
-Definition all_actors : list actor := [AProd; ACPoll; ACProbe; ACons; ACDrop; ACSetDepth 1; AItem; AEnd; AEnv; ADispose; AExtDrop].
+Definition all_actors : list actor := [AProd; ACPoll; ACProbe; ACons; ACDrop; ACSetDepth 1; AItem; AEnd; AEnv; ADispose; AExtDrop; AExtSync].
 Definition terminalb (F : pfacts) (f : nat -> nat) (s : state) : bool :=
   forallb (fun a => optional a || match step F f s a with None => true | Some _ => false end) all_actors.
 Definition terminal_silentb (F : pfacts) (f : nat -> nat) (s : state) : bool :=
